@@ -5,7 +5,9 @@ module String = Stdlib.String
 (* ---------------- C08-C11: LZ10 / LZ13 compression and decompression ----------------
    lz10c <flag> B<input>          flag 0: skipped by the model (implementation + oracle only)
    lz13c <flag> B<input>          flag 0: skipped; 1: wrapper length bytes not computed (printed as 0,
-                                  masked by the comparison); 2: everything
+                                  masked by the comparison); 2: everything; 3: as 1 and the model's decoder is
+                                  not run on the result (printed rt:skipped; long outputs at displacement 4096
+                                  cost output * displacement list steps in the list model) - also for lz10c
    lzd <entry> <flag> B<stream>   entry 10 | 13 | f10 | f13; flag 0: skipped
    The decoder model is run in both arithmetic modes; the line says so if they differ. *)
 let show_dec (r : BinNums.coq_N list Machine.outcome) : string =
@@ -23,11 +25,12 @@ let both (f : Machine.mode -> BinNums.coq_N list Machine.outcome) : BinNums.coq_
     let b = f Machine.Wrapping in
     (a, if a = b then "" else " MODE-DEPENDENT wrapping:" ^ show_dec b)
 
-let compress_line (input : BinNums.coq_N list) (c : BinNums.coq_N list Machine.outcome)
+let compress_line ?(skip_rt = false) (input : BinNums.coq_N list) (c : BinNums.coq_N list Machine.outcome)
     (dec : Machine.mode -> BinNums.coq_N list -> BinNums.coq_N list Machine.outcome) : string =
   match c with
   | Machine.Err _ -> "err"
   | Machine.Panic _ -> "PANIC"
+  | Machine.Ok c when skip_rt -> "ok " ^ show_b c ^ " rt:skipped"
   | Machine.Ok c ->
     let (r, note) = both (fun m -> dec m c) in
     let rt = (match r with
@@ -41,7 +44,7 @@ let lz10c (toks : string list) : string =
   | [flag; b] ->
     if flag = "0" then "SKIP" else
       let x = parse_b b in
-      compress_line x (Machine.Ok (LZ10.compress10 x)) LZDecode.lz10_decompress
+      compress_line ~skip_rt:(flag = "3") x (Machine.Ok (LZ10.compress10 x)) LZDecode.lz10_decompress
   | _ -> failwith "lz10c: bad case"
 
 let lz13c (toks : string list) : string =
@@ -49,9 +52,28 @@ let lz13c (toks : string list) : string =
   | [flag; b] ->
     if flag = "0" then "SKIP" else
       let x = parse_b b in
-      let c = if flag = "1" then LZ11.compress13_nohdr Machine.Checked x else LZ11.compress13 Machine.Checked x in
-      compress_line x c LZDecode.lz13_decompress
+      let c = if flag = "1" || flag = "3" then LZ11.compress13_nohdr Machine.Checked x else LZ11.compress13 Machine.Checked x in
+      compress_line ~skip_rt:(flag = "3") x c LZDecode.lz13_decompress
   | _ -> failwith "lz13c: bad case"
+
+(* the same two through CompressionFormat (cf_compress / cf_decompress); flag as for lz10c / lz13c, except
+   that the wrapper length is always computed when the enum's compress is used (flag 2 only) *)
+let lz10f (toks : string list) : string =
+  match toks with
+  | [flag; b] ->
+    if flag = "0" then "SKIP" else
+      let x = parse_b b in
+      compress_line ~skip_rt:(flag = "3") x (LZDecode.cf_compress LZDecode.CF10 Machine.Checked x) (LZDecode.cf_decompress LZDecode.CF10)
+  | _ -> failwith "lz10f: bad case"
+
+let lz13f (toks : string list) : string =
+  match toks with
+  | [flag; b] ->
+    if flag = "0" then "SKIP" else
+      let x = parse_b b in
+      let c = if flag = "2" then LZDecode.cf_compress LZDecode.CF13 Machine.Checked x else LZ11.compress13_nohdr Machine.Checked x in
+      compress_line ~skip_rt:(flag = "3") x c (LZDecode.cf_decompress LZDecode.CF13)
+  | _ -> failwith "lz13f: bad case"
 
 let lzd (toks : string list) : string =
   match toks with
@@ -71,3 +93,5 @@ let lzd (toks : string list) : string =
 let () = register "lz10c" lz10c
 let () = register "lz13c" lz13c
 let () = register "lzd" lzd
+let () = register "lz10f" lz10f
+let () = register "lz13f" lz13f
